@@ -32,3 +32,8 @@ import LapyVerif.Bridge.Poisson
 #print axioms LapyVerif.Bridge.poisson_system_neumann
 #print axioms LapyVerif.Bridge.poisson_result_neumann
 #print axioms LapyVerif.Bridge.poisson_format
+#print axioms LapyVerif.Bridge.census_FemTria_pcCount
+#print axioms LapyVerif.Bridge.census_FemTriaMass_pcCount
+#print axioms LapyVerif.Bridge.census_FemTriaAniso_pcCount
+#print axioms LapyVerif.Bridge.census_FemTet_pcCount
+#print axioms LapyVerif.Bridge.census_PoissonSys_pcCount
